@@ -869,4 +869,161 @@ theorem setresult_diag (d : Dev) (a : Action) (o : Oracle) (p s : Int) (i : List
           · simp at hx
       · simp at hx
 
+
+/-! ### the banner -/
+
+/-- the client `_create_client_socket` makes -/
+def newClient (w : W) : Cli :=
+  { id := w.nextId, fd := 1000 + w.nacc, toBuf := bstr "001 " ++ w.cfg.version ++ crlf ++ prompt }
+
+/-- the `accept` part of `cli_post_poll` -/
+def cliAccept (w : W) (acc : Nat) : W :=
+  if acc == 1 then
+    { w with clients := w.clients ++ [newClient w], nextId := w.nextId + 1, nacc := w.nacc + 1, sys := w.sys ++ [Sys.accept (1000 + w.nacc : Nat)] }
+  else if acc == 2 then { w with nextId := w.nextId + 1, sys := w.sys ++ [Sys.accept (-1)] }
+  else w
+
+/-- the per-client part of `cli_post_poll` -/
+def cliStep (envs : List FdEnv) (w : W) (c0 : Cli) : W :=
+  if w.exited then w else
+  let (w', r) := clientPass w c0 (envs.find? (·.fd == c0.fd))
+  match r with
+  | some c => { w' with clients := w'.clients.map fun (x : Cli) => if x.id == c.id then c else x }
+  | none => { w' with clients := w'.clients.filter fun (x : Cli) => x.id != c0.id }
+
+theorem cliPostPoll_eq (w : W) (acc : Nat) (envs : List FdEnv) :
+    cliPostPoll w acc envs =
+      (cliAccept { w with sys := [], caps := envs.map fun (e : FdEnv) => (e.fd, e.cap) } acc).clients.foldl (cliStep envs)
+        (cliAccept { w with sys := [], caps := envs.map fun (e : FdEnv) => (e.fd, e.cap) } acc) := rfl
+
+theorem bstr_001 : bstr "001 " = code3 1 ++ [32] := by decide +kernel
+
+theorem newClient_banner (w : W) : (newClient w).toBuf = render [Item.line 1 w.cfg.version, Item.prompt] := by
+  simp [newClient, render, Item.render, bstr_001]
+
+/-! ### `_handle_input`: exactly the complete lines, in order -/
+
+/-- the complete lines (each with its terminating LF) and the unterminated rest -/
+def linesOf : Bytes → List Bytes × Bytes
+  | [] => ([], [])
+  | b :: r =>
+    if b == 10 then ([b] :: (linesOf r).1, (linesOf r).2)
+    else match (linesOf r).1 with
+      | [] => ([], b :: (linesOf r).2)
+      | l :: ls => ((b :: l) :: ls, (linesOf r).2)
+
+theorem linesOf_flatten (b : Bytes) : (linesOf b).1.flatten ++ (linesOf b).2 = b := by
+  induction b with
+  | nil => rfl
+  | cons x r ih =>
+    unfold linesOf
+    split
+    · simpa using ih
+    · split
+      · rename_i h; rw [h] at ih; simpa using ih
+      · rename_i l ls h; rw [h] at ih; simpa using ih
+
+theorem linesOf_tail (b : Bytes) : 10 ∉ (linesOf b).2 := by
+  induction b with
+  | nil => simp [linesOf]
+  | cons x r ih =>
+    unfold linesOf
+    split
+    · exact ih
+    · rename_i hx
+      split
+      · simp only [List.mem_cons, not_or]; exact ⟨fun h => hx (by simp [← h]), ih⟩
+      · exact ih
+
+theorem linesOf_line (b : Bytes) : ∀ l ∈ (linesOf b).1, ∃ body, l = body ++ [10] ∧ 10 ∉ body := by
+  induction b with
+  | nil => simp [linesOf]
+  | cons x r ih =>
+    unfold linesOf
+    split
+    · rename_i hx
+      intro l hl; simp only [List.mem_cons] at hl
+      rcases hl with rfl | hl
+      · exact ⟨[], by simp at hx; simp [hx], by simp⟩
+      · exact ih l hl
+    · rename_i hx
+      split
+      · simp
+      · rename_i l0 ls h; rw [h] at ih
+        intro l hl; simp only [List.mem_cons] at hl
+        rcases hl with rfl | hl
+        · obtain ⟨body, hb, hn⟩ := ih l0 (by simp)
+          refine ⟨x :: body, by simp [hb], ?_⟩
+          simp only [List.mem_cons, not_or]; exact ⟨fun h => hx (by simp [← h]), hn⟩
+        · exact ih l (by simp [hl])
+
+theorem linesOf_idx (b : Bytes) :
+    (b.idxOf? 10 = none → linesOf b = ([], b)) ∧
+    (∀ i, b.idxOf? 10 = some i → linesOf b = (b.take (i + 1) :: (linesOf (b.drop (i + 1))).1, (linesOf (b.drop (i + 1))).2)) := by
+  induction b with
+  | nil => simp [linesOf, List.idxOf?]
+  | cons x r ih =>
+    obtain ⟨ih1, ih2⟩ := ih
+    simp only [List.idxOf?, List.findIdx?_cons] at ih1 ih2 ⊢
+    by_cases hx : (x == 10) = true
+    · simp only [hx, if_true]
+      constructor
+      · intro h; cases h
+      · intro i hi; cases hi; simp [linesOf, hx]
+    · simp only [hx]
+      constructor
+      · intro h
+        have : List.findIdx? (fun y => y == 10) r = none := by
+          cases hh : List.findIdx? (fun y => y == 10) r with
+          | none => rfl
+          | some j => rw [hh] at h; simp at h
+        rw [linesOf, if_neg hx, ih1 this]
+      · intro i hi
+        cases hh : List.findIdx? (fun y => y == 10) r with
+        | none => rw [hh] at hi; simp at hi
+        | some j =>
+          rw [hh] at hi; simp at hi; subst hi
+          rw [linesOf, if_neg hx, ih2 j hh]
+          simp
+
+/-- `_handle_input` as a fold of `_parse_input` over a list of lines; the line is taken out of `from` before it is parsed -/
+def runLines : W → Cli → List Bytes → W × Cli
+  | w, c, [] => (w, c)
+  | w, c, l :: ls =>
+    if w.exited then (w, c) else
+    runLines (parseLine w { c with fromBuf := c.fromBuf.drop l.length } l).1 (parseLine w { c with fromBuf := c.fromBuf.drop l.length } l).2 ls
+
+theorem runLines_exited (w : W) (c : Cli) (ls : List Bytes) (h : w.exited = true) : runLines w c ls = (w, c) := by
+  cases ls <;> simp [runLines, h]
+
+theorem handleInputF_lines : ∀ (fuel : Nat) (w : W) (c : Cli), c.fromBuf.length < fuel →
+    handleInputF fuel w c = runLines w c (linesOf c.fromBuf).1 := by
+  intro fuel; induction fuel with
+  | zero => intro w c h; omega
+  | succ fuel ih =>
+    intro w c h
+    unfold handleInputF
+    by_cases hex : w.exited = true
+    · rw [if_pos hex, runLines_exited _ _ _ hex]
+    · rw [if_neg hex]
+      obtain ⟨h1, h2⟩ := linesOf_idx c.fromBuf
+      cases hi : c.fromBuf.idxOf? 10 with
+      | none => rw [h1 hi]; rfl
+      | some i =>
+        have hlt : i < c.fromBuf.length := by
+          have := List.findIdx?_eq_some_iff_findIdx_eq.mp hi
+          exact this.1
+        have hlen : (c.fromBuf.take (i + 1)).length = i + 1 := by rw [List.length_take]; omega
+        rw [h2 i hi]
+        simp only [runLines, if_neg hex, hlen]
+        have hfr := (parseLine_frame w { c with fromBuf := c.fromBuf.drop (i + 1) } (c.fromBuf.take (i + 1))).fromBuf
+        rw [ih _ _ (by rw [hfr]; simp only [List.length_drop]; omega), hfr]
+
+/-- the fuel of `handleInput` always suffices -/
+theorem handleInput_lines (w : W) (c : Cli) : handleInput w c = runLines w c (linesOf c.fromBuf).1 :=
+  handleInputF_lines _ w c (Nat.lt_succ_self _)
+
+theorem handleInputF_fuel (fuel : Nat) (w : W) (c : Cli) (h : c.fromBuf.length < fuel) : handleInputF fuel w c = handleInput w c := by
+  rw [handleInputF_lines fuel w c h, handleInput_lines]
+
 end Pm.Daemon
